@@ -43,8 +43,8 @@ def _seq_value(v):
         return b""
     if k == z3.Z3_OP_SEQ_UNIT:
         e = v.arg(0)
-        if z3.is_bv_value(e):
-            return bytes([e.as_long()])
+        if z3.is_bv_value(e) or z3.is_int_value(e):
+            return bytes([e.as_long() & 255])
         return None
     if k == z3.Z3_OP_SEQ_CONCAT:
         parts = [_seq_value(v.arg(i)) for i in range(v.num_args())]
@@ -65,6 +65,8 @@ def smt2_for(pc, neg_goal):
 _REWRITES = [
     (re.compile(r"\bseq\.nth_i\b"), "seq.nth"),
     (re.compile(r"\bbv2int\b"), "bv2nat"),
+    (re.compile(r"\bubv_to_int\b"), "bv2nat"),
+    (re.compile(r"\bint_to_bv\b"), "int2bv"),
     (re.compile(r"\bstr\.from_int\b"), "str.from_int"),
     (re.compile(r"\bint\.to\.str\b"), "str.from_int"),
     (re.compile(r"\bstr\.to\.int\b"), "str.to_int"),
@@ -109,7 +111,7 @@ def discharge(ctx, name, goal, info=None):
         return Oblig(name, "valid", None, 0.0, "simplify", info)
     neg = z3.Not(goal)
     stringy = _has_strings(ctx.pc, goal)
-    quick_ms = min(eng.vc_timeout_ms, 4000) if stringy else eng.vc_timeout_ms
+    quick_ms = min(eng.vc_timeout_ms, 1500)
     s = ctx.solver
     s.push()
     s.set("timeout", quick_ms)
@@ -128,7 +130,22 @@ def discharge(ctx, name, goal, info=None):
     status = "valid" if r == z3.unsat else ("refuted" if r == z3.sat else "unknown")
     size = 0
     if status == "unknown":
-        # cvc5 next (it decides most string/sequence queries z3 leaves open), then a fresh z3
+        # a fresh (non-incremental) z3 picks a tactic for the logic actually used
+        s1 = z3.Solver()
+        s1.set("timeout", min(eng.vc_timeout_ms, 5000))
+        for c in ctx.pc:
+            s1.add(c)
+        s1.add(neg)
+        r1 = s1.check()
+        if r1 == z3.unsat:
+            status = "valid"
+            backend = "z3-fresh"
+        elif r1 == z3.sat:
+            status = "refuted"
+            backend = "z3-fresh"
+            model = extract_model(ctx, s1.model())
+    if status == "unknown":
+        # cvc5 next (it decides most string/sequence queries z3 leaves open), then a long z3 run
         smt2 = smt2_for(ctx.pc, neg)
         size = len(smt2)
         res, msg = run_cvc5(smt2, eng.cvc5_timeout_s)
